@@ -100,7 +100,7 @@ def generate(rng, tier):
     # constructor
     for k in range(12 if tier == "quick" else 100):
         v, t = gm.tria_family(rng.choice(["grid", "fan", "tetra", "octa", "delaunay"]), rng)
-        mode = ["plain", "transposed", "bad_index", "bad_width_t", "bad_width_v", "mutate_after"][k % 6]
+        mode = ["plain", "transposed", "bad_index", "bad_width_t", "bad_width_v", "mutate_after", "one_based"][k % 7]
         if mode in ("transposed", "bad_width_t", "bad_width_v") and (len(v) < 4 or len(t) < 4):
             mode = "plain"       # a 3 x 4 array is read as four transposed rows: not a malformed input
         if len(t) < 3:
@@ -252,6 +252,8 @@ def run_impl(case):
             vv, tt = vv.T.copy(), tt.T.copy()
         elif mode == "bad_index":
             tt[len(tt) // 2, 1] = len(vv)
+        elif mode == "one_based":
+            tt = tt + 1              # a one-based triangle list: its largest index is out of range
         elif mode == "bad_width_t":
             tt = np.hstack([tt, tt[:, :1]])
         elif mode == "bad_width_v":
@@ -432,7 +434,7 @@ def oracle(case, out):
         return V
     if kind == "ctor":
         mode = case["mode"]
-        if mode in ("bad_index", "bad_width_t", "bad_width_v"):
+        if mode in ("bad_index", "bad_width_t", "bad_width_v", "one_based"):
             if out.get("error") != "ValueError":
                 bad("constructor_rejects_with_ValueError", f"{mode}: {out.get('error', 'accepted')}")
         else:
